@@ -21,6 +21,7 @@ def apply() -> None:
     _e1_groupdict()
     _e2_dollar()
     _e5_format()
+    _e8_no_shortcircuit()
     install_stats()
 
 
@@ -113,6 +114,16 @@ def _e5_format() -> None:
         return orig(obj, format_spec)
 
     core._PATCH_REGISTRATIONS[format] = _format
+
+
+# ---------------------------------------------------------------------------------------------
+# E8: CrossHair "short-circuits" calls to contract-carrying functions (its own _hash/_repr patches among
+# them) by forking a parallel path that returns an arbitrary value and reconciles later.  Sound, but it
+# multiplies the paths of obligations that hash (dict keys, caches) by 10 and makes them non-exhaustible.
+def _e8_no_shortcircuit() -> None:
+    from crosshair import core
+
+    core.consider_shortcircuit = lambda *a, **k: None
 
 
 # ---------------------------------------------------------------------------------------------
